@@ -1,7 +1,7 @@
 from common import COMMON_TRUST
 
 PROP = {
-    "generated": ["FormConsts"],
+    "generated": ["FormConsts", "FormImpls"],
     "lean_modules": ["SwimVerif.Model.FormSchema", "SwimVerif.Model.FormWF", "SwimVerif.Model.FormIO",
                      "SwimVerif.Model.FormMon", "SwimVerif.Proofs.FormSchema", "SwimVerif.Proofs.FormTypes", "SwimVerif.Proofs.FormReset",
                      "SwimVerif.Generated.FormConsts"],
